@@ -198,6 +198,7 @@ class C18(Check):
         return None
 
     # --------------------------------------------------------------------------------------------
+    @hist.retry_environmental
     def run_case(self, case, ctx):
         c = normalise(case)
         root = ctx.dir
